@@ -351,7 +351,16 @@ ContractLaws(S, e, E, k, obs) ==
 (***************************************************************************)
 (* One monitor step.                                                       *)
 (***************************************************************************)
-LawStep(S, e) ==
+\* An operation that released the last handle of an owner whose destructor panics (outcome
+\* "opanic": the panic is the environment's, raised after the crate ran the destructor) is judged
+\* as what it did to the handles: the consumed handle is gone and nothing was created, i.e. a
+\* `drop` of that handle -- the owner, release and ledger laws apply in full.
+Norm(e) == IF e.op \notin {"reset", "end"} /\ e.out.k = "opanic"
+           THEN [e EXCEPT !.op = "drop", !.out = [k |-> "ok", new |-> <<>>, v |-> -9]]
+           ELSE e
+
+LawStep(S, e0) ==
+  LET e == Norm(e0) IN
   IF e.op = "reset" THEN [S |-> InitState, V |-> {}]
   ELSE IF e.op = "end" THEN [S |-> S, V |-> EndLaws(e) \cup MemLaws(e)]
   ELSE
